@@ -34,6 +34,9 @@ def kits():
     out['nested3'] = dict(fields=[field('l1', 10, Q('Lvl1'), required=True)])
     out['repeated-scalar'] = dict(fields=[field('tags', 10, 'string', repeated=True, required=True)])
     out['repeated-message'] = dict(fields=[field('leaves', 10, Q('Lvl3'), repeated=True, required=True)])
+    out['repeated-enum'] = dict(fields=[field('tones', 10, 'enum:' + Q('Tone'), repeated=True, required=True)])
+    out['nested-repeated-enum'] = dict(fields=[field('mix', 10, Q('Mix'), required=True)])
+    out['required-message-plain'] = dict(fields=[field('item', 10, Q('Item'), required=True)])
     out['resource-ref'] = dict(fields=[field('thing', 10, 'string', required=True, ref=f'{DOM}/Thing')])
     out['oneof-scalar-first'] = dict(fields=[field('by_name', 10, 'string', oneof=0), field('by_leaf', 11, Q('Lvl3'), oneof=0),
                                              field('by_tone', 12, 'enum:' + Q('Tone'), oneof=0)], oneofs=['selector'])
@@ -57,6 +60,8 @@ def build(transport):
             message('Lvl2', [field('l3', 1, Q('Lvl3'), required=True), field('skip', 2, 'string')]),
             message('Lvl1', [field('l2', 1, Q('Lvl2'), required=True)]),
             message('Thing', [field('name', 1, 'string')], resource=(f'{DOM}/Thing', 'things/{thing}')),
+            message('Mix', [field('tones', 1, 'enum:' + Q('Tone'), repeated=True, required=True), field('tone', 2, 'enum:' + Q('Tone'), required=True),
+                            field('nums', 3, 'int32', repeated=True, required=True)]),
             message('Resp', [field('ok', 1, 'bool'), field('text', 2, 'string')]),
             message('Item', [field('name', 1, 'string')]),
             message('PagedResp', [field('items', 1, Q('Item'), repeated=True), field('next_page_token', 2, 'string')]),
